@@ -184,6 +184,10 @@ def r_specs(ctx: Ctx) -> list[dict]:
         {"D": 20, "dt": 10.0, "obs": [[0.5], None], "default": [0.25, 1.0], "mod": True},
         {"D": 20, "dt": 7.5, "obs": [[0.0, 1 / 3, 1.0]], "default": None, "mod": True},
         {"D": 40, "dt": 10.0, "obs": [[float(x) for x in np.linspace(0, 1, 5)], [float(x) for x in np.arange(0, 1.01, 0.25)]], "default": None},
+        # long sequences: one ulp near the end exceeds 1e-12 ns; requested times coincide with multiples of dt up to rounding
+        {"D": 16000, "dt": 1600.0, "obs": [lin], "default": None},
+        {"D": 9600, "dt": 960.0, "obs": [None, [0.3, 0.7]], "default": lin},
+        {"D": 12000, "dt": 12000 / 7, "obs": [[k / 7 for k in range(8)]], "default": None},
     ]
     specs = [dict(s, stratum="R", mod=s.get("mod", False)) for s in fixed]
     for _ in range(ctx.pick(100, 600)):
@@ -351,9 +355,9 @@ def run(ctx: Ctx) -> None:
     rs = r_specs(ctx)
     for j, s in enumerate(rs):
         runs.append(dict(s, backend="sv"))
-        if j < 18 or j % ctx.pick(12, 6) == 0:
+        if j < 21 or j % ctx.pick(12, 6) == 0:
             runs.append(dict(s, backend="mps"))
-        if j < 18 and j % 3 == 0 or j % ctx.pick(40, 15) == 0:
+        if j < 21 and j % 3 == 0 or j % ctx.pick(40, 15) == 0:
             runs.append(dict(s, backend="dmrg"))
     for i, s in enumerate(runs):
         s["id"] = i + 1
